@@ -22,6 +22,7 @@ import time
 
 from vlib import common as C
 from checks import c06_pool as P
+from checks import c06_gen as G
 
 PID = "C06"
 UNIT = "safe"
@@ -331,7 +332,25 @@ def corpus_sources():
     return out
 
 
-def text_jobs(tier, seed, first_id):
+def calibrate_fillers(binp, tier):
+    """bytes of bytecode per filler statement, measured by compiling two bodies of different size"""
+    fillers = G.FILLERS[:3] if tier == "quick" else G.FILLERS
+    jobs = []
+    for k, f in enumerate(fillers):
+        for m, n in enumerate((100, 300)):
+            src = next(s for name, s in G.jump_programs(n, f) if name == "jump/if")
+            jobs.append({"mode": "text", "id": 10 * k + m + 1, "src": src, "run": False, "all": True})
+    lines, _ = run_jobs(binp, jobs)
+    size = {l["j"]: l["o"].get("bytes") for l in lines if "o" in l and isinstance(l["o"], dict)}
+    out = {}
+    for k, f in enumerate(fillers):
+        a, b = size.get(10 * k + 1), size.get(10 * k + 2)
+        if a and b and b > a:
+            out[f] = (b - a) / 200.0
+    return out
+
+
+def text_jobs(tier, seed, first_id, binp=None):
     rng = C.Rng(seed ^ 0xC06)
     jobs = []
     jid = first_id
@@ -381,6 +400,18 @@ def text_jobs(tier, seed, first_id):
         jid += 1
         jobs.append({"mode": "text", "id": jid, "src": s, "run": True, "origin": "noise", "cost": 2})
     dist["char-noise"] = n_noise
+    fam = G.format_family(tier, rng)
+    dist["format-spec family (value x spec scripts)"] = len(fam)
+    lim = G.limit_family(tier)
+    bps = calibrate_fillers(binp, tier) if binp else {}
+    cal = G.calibrated_jump_programs(bps, tier)
+    dist["size-scaled limit family"] = len(lim)
+    dist["jump-distance family (calibrated to 2^8 / 2^16 bytes)"] = len(cal)
+    dist["bytes_per_filler_statement"] = {k: round(v, 2) for k, v in bps.items()}
+    for origin, src in fam + lim + cal:
+        jid += 1
+        jobs.append({"mode": "text", "id": jid, "src": src, "run": True, "origin": origin,
+                     "cost": 2 + len(src) // 400})
     return jobs, dist
 
 
@@ -422,7 +453,7 @@ def sweep(chk, binp, tier, seed, modelled_jobs=None):
         extra.append({"mode": "repeat", "id": first + k, "module": module, "fn": fn, "form": "f",
                       "args": [P.INDEX[a] for a in args], "times": times, "cost": 50})
     first += len(extra) + 1
-    tjobs, tdist = text_jobs(tier, seed, first)
+    tjobs, tdist = text_jobs(tier, seed, first, binp)
     mjobs = modelled_jobs(first + len(tjobs) + 10) if modelled_jobs else []
     alljobs = jobs + extra + tjobs + mjobs
     byid = {j["id"]: j for j in alljobs}
